@@ -92,8 +92,32 @@ def run(ctx):
         ctx.saw_fn(fn)
         paths, it, err = K.run_absint(f, fn, sym_names={"self.0": "a"})
         ok = paths is not None and len(paths) == 1 and outcome_str(paths[0].outcome) == "return " + expect
+        detail = [p.describe() for p in (paths or [])]
+        if not ok:
+            # the same conversion spelt through byte arrays (`u32::from_ne_bytes(x.to_be_bytes())`, …): the composition is
+            # evaluated as a permutation of the four bytes for a little- and a big-endian host and compared with to_be /
+            # from_be (one and the same permutation)
+            from engine.rules import success_values
+            from engine.sym import strip_deep, render
+            vals = [strip_deep(t) for _, _, t in success_values(b)]
+            sy = K.sym_of(b)
+            p1 = strip_deep(sy.local(1))
+
+            def is_input(t, p1=p1, name=name):
+                t = strip_deep(t)
+                if name == "to_be":
+                    return t[0] == "field" and str(t[2]) == "0" and strip_deep(t[1]) == p1
+                return t == p1
+            if len(vals) == 1:
+                v = vals[0]
+                if name == "from_be" and v[0] == "agg" and len(v[3]) == 1:
+                    v = strip_deep(v[3][0][1])
+                elif name == "from_be":
+                    v = None
+                ok = v is not None and K.is_byte_order_conversion(v, is_input, name)
+                detail = [render(x)[:160] for x in vals]
         ctx.ob("R-FLOW", "Serial::" + name, ok, "Serial::%s is u32::%s of the wrapped value" % (name, name), where=b.loc,
-               detail=[p.describe() for p in (paths or [])])
+               detail=detail)
 
     fn = "<%s as std::cmp::PartialEq>::eq" % S
     b = f.body(fn)
